@@ -46,10 +46,10 @@ def showWorkload (w : List (Bool × List (List Access))) : String :=
 
 def parseVariant (s : String) : Variant :=
   let cs := s.toList
-  { pruneAfterRUnlock := cs.getD 0 '0' == '1', txFirst := cs.getD 1 '0' == '1', useOwn := cs.getD 2 '0' == '1' }
+  { pruneAfterRUnlock := cs.getD 0 '0' == '1', txFirst := cs.getD 1 '0' == '1', useOwn := cs.getD 2 '0' == '1', dropOld := cs.getD 3 '0' == '1' }
 
 def showVariant (v : Variant) : String :=
-  String.ofList ([v.pruneAfterRUnlock, v.txFirst, v.useOwn].map fun b => if b then '1' else '0')
+  String.ofList ([v.pruneAfterRUnlock, v.txFirst, v.useOwn, v.dropOld].map fun b => if b then '1' else '0')
 
 /-- worker i ↦ (tx, program), in workload order -/
 def Cfg.workers (c : Cfg) : List (TxId × List Access) :=
@@ -85,7 +85,7 @@ def allPCs : List PC :=
   [.idle, .xPreTxLock, .mgrLock, .lookup, .exMgrUnlock, .rTxLock, .rCheckWritten, .rTxUnlock, .rTryRLock,
    .rColdCreate, .xTxLock, .xCheckWritten, .xObjLock, .xRegister, .xTxUnlock, .chkScrapped, .sCreate, .callF,
    .inF, .fScrap, .fMgrLock, .fDelete, .fMgrUnlock, .nCreate, .nFailMgrUnlock, .nFailTxUnlock, .nStore, .nRLock,
-   .nObjLock, .nTxLock, .nRegister, .nTxUnlock, .nMgrUnlock, .pEnter, .pMgrLock, .pBody, .pMgrUnlock, .dRUnlock,
+   .nObjLock, .nTxLock, .nDropOld, .nRegister, .nTxUnlock, .nMgrUnlock, .pEnter, .pMgrLock, .pBody, .pMgrUnlock, .dRUnlock,
    .cWait, .cTxLock, .cCheckEmpty, .cMgrLock, .cLoop, .cEntry, .cMgrUnlock, .cTxUnlock, .cDone]
 
 def pcNum (p : PC) : Nat := allPCs.idxOf p
@@ -105,7 +105,7 @@ def St.key (s : St) (c : Cfg) : Array Nat := Id.run do
   out := out.push 999
   for o in List.range s.nObj do
     let ob := s.objs o
-    out := out.push (optNum ob.writer) |>.push (bNum ob.scrapped + 2 * bNum ob.shared + 4 * bNum ob.orphan + 8 * ob.name) |>.push (optNum ob.dirty)
+    out := out.push (optNum ob.writer) |>.push (bNum ob.scrapped + 2 * bNum ob.shared + 4 * bNum ob.orphan + 8 * ob.name) |>.push (optNum ob.dirty) |>.push (optNum ob.dropped)
     out := out.push ob.readers.length
     for r in ob.readers do out := out.push (tidNum r)
     out := out.push ob.wown.length
@@ -237,7 +237,7 @@ def St.unlockedUse (s : St) (c : Cfg) : Option String :=
   (c.tids.filter fun t => (s.thr t).pc == .inF || (s.thr t).pc == .callF).findSome? fun t =>
     let th := s.thr t
     let ob := s.objs th.use
-    if ob.shared && !(ob.readers.contains t) && ob.writer != some th.tx then
+    if ob.shared && !(ob.readers.contains t) && ob.writer != some th.tx && ob.dropped != some th.tx then
       some s!"{showTid t} (tx {th.tx}) is handed shared object {th.use} without holding its lock"
     else none
 
